@@ -1,4 +1,5 @@
 """Semantic matching helpers: resolve local names through their unique reaching definition, canonical comparison."""
+from .astutil import clone as _clone
 import ast
 
 from .pm import norm_src
@@ -20,9 +21,9 @@ def resolve_expr(cfg, st, expr, depth=0):
                 ds = [d for d in rd.get(st, {}).get(n.id, frozenset())]
                 if len(ds) == 1 and ds[0] is not ENTRY and isinstance(ds[0], ast.Assign) and len(ds[0].targets) == 1 \
                         and isinstance(ds[0].targets[0], ast.Name):
-                    return resolve_expr(cfg, ds[0], copy.deepcopy(ds[0].value), depth + 1)
+                    return resolve_expr(cfg, ds[0], _clone(ds[0].value), depth + 1)
             return n
-    return ast.fix_missing_locations(R().visit(copy.deepcopy(expr)))
+    return ast.fix_missing_locations(R().visit(_clone(expr)))
 
 
 def single_def(cfg, st, name):
@@ -59,7 +60,7 @@ def normalise_calls(node):
             return n
     if isinstance(node, str):
         node = ast.parse(node, mode="eval").body
-    return ast.fix_missing_locations(R().visit(copy.deepcopy(node)))
+    return ast.fix_missing_locations(R().visit(_clone(node)))
 
 
 def canon_equal(a, b):
@@ -159,7 +160,7 @@ def normalise_sizes(node, aliases):
             return n
     if isinstance(node, str):
         node = ast.parse(node, mode="eval").body
-    return ast.fix_missing_locations(R().visit(copy.deepcopy(node)))
+    return ast.fix_missing_locations(R().visit(_clone(node)))
 
 
 def expect_assign(ctx, rule, unit, qn, scope, target_src, expected, site, why, ok_note="", all_sites=False):
